@@ -255,6 +255,21 @@ def run(ctx):
                                   f"{desc_txt}: target saw transport={j['transport']} service={j['service']:#x} path={j['segs']!r} data={j['data'].hex()[:80]} route={j['route']!r}; "
                                   f"expected {transport} {service:#x} {want_segs!r} {exp_data.hex()[:80]} {exp_route!r}",
                                   {"seen": j, "expected": {"segs": want_segs, "data": exp_data, "route": exp_route}})
+                else:
+                    # class / instance / attribute given as bytes carry their segment width with them (some devices insist on a
+                    # 16- or 32-bit form): the request path the target received must use exactly those widths, ints the minimal one
+                    from vlib import refepath
+                    want_raw = b""
+                    for tname, key_, val_ in (("class", "class_code", cls_v), ("instance", "instance", inst_v), ("attribute", "attribute", attr_v)):
+                        if key_ not in kwargs:
+                            continue
+                        a_ = kwargs[key_]
+                        want_raw += refepath.build_logical(tname, val_, force_size=len(a_) if isinstance(a_, (bytes, bytearray)) else None)
+                    if bytes(j.get("path", b"")) != want_raw:
+                        res.violation(f"request-path-width:{transport}",
+                                      f"{desc_txt}: class/instance/attribute were given as {[kwargs.get(k_) for k_ in ('class_code', 'instance', 'attribute')]!r}; "
+                                      f"the target received the path {bytes(j.get('path', b'')).hex()}, the given widths are {want_raw.hex()}",
+                                      {"path": bytes(j.get("path", b"")), "expected": want_raw})
                 # ---- the answer ---------------------------------------------------------------------------------
                 if short_reply:
                     res.seen("short-typed-reply", transport, desc[0])
@@ -284,6 +299,27 @@ def run(ctx):
                 if sc < 2 and k < 2:
                     res.sample({"call": desc_txt, "target_saw": {"transport": j["transport"], "service": j["service"], "path": j["segs"], "data": j["data"], "route": j["route"]}, "tag": repr(tag)[:200]})
 
+            # ---- re-open after a refused Forward Close: the PLC had already timed the connection out (it answers 01/0107 and
+            # holds nothing); after close() / open() a connected message must be delivered again - over a NEW connection
+            if sc % 3 == 0:
+                state["reply"] = (0, (), b"ok")
+                b.call("gm", drv.generic_message, service=0x0E, class_code=0x64, instance=1, attribute=1, connected=True, name="before")
+                t.expire_connections()
+                b.call("close", drv.close)           # may raise CommError for the refused Forward Close: either way the driver is closed
+                log.drain_into(res, {"C14"})
+                log.violations.clear()
+                st, out = b.call("open", drv.open)
+                before = len(dev.journal)
+                st2, tag2 = b.call("gm", drv.generic_message, service=0x0E, class_code=0x64, instance=2, attribute=1, connected=True, name="after") if st == "ok" and out else ("skip", None)
+                res.ev()
+                res.seen("reopen-after-refused-forward-close", len(hops), st, st2)
+                if st != "ok" or not out:
+                    res.violation("reopen-after-refused-forward-close:open", f"open() after a close() whose Forward Close the target refused (01/0107) -> {out!r:.160} (path {path!r})", None)
+                elif st2 != "ok" or not tag2 or len(dev.journal) != before + 1:
+                    res.violation("reopen-after-refused-forward-close:message",
+                                  f"connected generic_message after close() (Forward Close refused with 01/0107) and open(): -> {tag2!r:.160}; the device received {len(dev.journal) - before} request(s) "
+                                  f"(path {path!r}); target log: {[v[1] for v in log.violations[-3:]]}", None)
+                log.violations[:] = [v for v in log.violations if v[0] == "C14"]
             b.call("close", drv.close)
             log.drain_into(res, {"C14"})
             log.violations.clear()
